@@ -242,7 +242,9 @@ def b_poly(tier):
     b = BoundedRun("polynomials", rule="all sparse polynomials in x with exponents from {0,1,2,3} (<= 3 terms) and coefficients in {-2,-1,1,2,1/2}: "
                    "value(p op q) == value(p) op value(q) at x in {-2,-1,0,1,2,1/2,3} for +, -, *, ** (n <= 3), and divmod (q*d + r == p, deg r < deg d over "
                    "the rationals); representation invariant (strictly increasing exponents, no zero coefficient) after every operation; evaluation mapper "
-                   "(Horner) == direct sum; identity-style mapper that rewrites coefficients keeps all terms; quotient(a, b) for all integer pairs evaluates to a/b",
+                   "(Horner) == direct sum; identity-style mapper that rewrites coefficients keeps all terms; the value after such a rewrite (entries with a zero coefficient may remain) and of +, -, * "
+                   "on the rewritten polynomial is the table's; symbolic coefficients bound to values including zero through the environment and through substitution; "
+                   "quotient(a, b) for all integer pairs evaluates to a/b",
                    bound="~200 polynomials, all pairs sampled to <= 4000", functions=["Polynomial.__add__/__mul__/__pow__/__divmod__/__neg__", "EvaluationMapper.map_polynomial",
                                                                                      "IdentityMapper.map_polynomial", "primitives.quotient", "Rational"])
     x = p.Variable("x")
@@ -348,6 +350,65 @@ def b_poly(tier):
         if not (r[0] == "val" and tuple(r[1].data) == want):
             b.fail(Failure("polynomials", f"what=identity-mapper-rewrite p={a.data}", dict(kind="poly", op="idmap", p=repr(a.data)), expected=repr(want),
                            actual=(outcome.describe(r) if r[0] == "exc" else repr(tuple(r[1].data)))[:200], functions=["IdentityMapper.map_polynomial"]))
+    # values after a mapper has rewritten the coefficients: entries whose coefficient has become zero may remain in the table, and the value is still the table's
+    class Shift(IdentityMapper):
+        def __init__(self, k):
+            self.k = k
+
+        def map_constant(self, e):
+            return e + self.k
+
+        def map_variable(self, e):
+            return e
+    from pymbolic.mapper.substitutor import substitute
+    others = [Polynomial(x, ((0, 1), (2, 3))), Polynomial(x, ((1, -2),)), Polynomial(x, ((0, 2), (1, 1), (3, -1)))]
+    ints_ = [pl for pl in polys if all(isinstance(c, int) for _, c in pl.data)]
+    for a in trees.thin(ints_, 60, seed=11):
+        if not a.data:
+            continue
+        for k in (1, -1, 2, -2):
+            ra = outcome.run(lambda: Shift(k)(a))
+            table = [(e, c + k) for e, c in a.data]
+            for t in (-2, 0, 1, 2, Fraction(1, 2), 3):
+                want = sum(c * t ** e for e, c in table)
+                got = outcome.run(lambda: EvaluationMapper({"x": t})(ra[1])) if ra[0] == "val" else ra
+                b.case(("rewritten-value", repr(a.data), k, repr(t)), nontrivial=any(c == 0 for _, c in table), sample=dict(p=repr(a.data), shift=k, at=repr(t)))
+                if not (got[0] == "val" and got[1] == want):
+                    b.fail(Failure("polynomials", f"what=value-after-coefficient-rewrite p={a.data} shift={k} at={t}", dict(kind="poly", op="rewritten-value", p=repr(a.data), k=k, at=repr(t)),
+                                   expected=repr(want), actual=outcome.describe(got)[:200], functions=["EvaluationMapper.map_polynomial", "IdentityMapper.map_polynomial"]))
+                    break
+            if ra[0] != "val":
+                continue
+            for o in others:
+                for opn, op in (("add", operator.add), ("sub", operator.sub), ("mul", operator.mul)):
+                    r = outcome.run(lambda: op(ra[1], o))
+                    b.case(("rewritten-op", opn, repr(a.data), k, repr(o.data)), nontrivial=any(c == 0 for _, c in table))
+                    ok = r[0] == "val"
+                    for t in (-2, 0, 1, 3, Fraction(1, 2)):
+                        if not ok:
+                            break
+                        want = op(sum(c * t ** e for e, c in table), val(o, t))
+                        got = outcome.run(lambda: EvaluationMapper({"x": t})(r[1]))
+                        ok = got[0] == "val" and got[1] == want
+                    if not ok:
+                        b.fail(Failure("polynomials", f"what={opn}-after-coefficient-rewrite p={a.data} shift={k} q={o.data}", dict(kind="poly", op=f"rewritten-{opn}", p=repr(a.data), k=k, q=repr(o.data)),
+                                       expected="value(p') op value(q), evaluated", actual=(outcome.describe(r) if r[0] == "exc" else repr(getattr(r[1], "data", r[1])))[:200],
+                                       functions=[f"Polynomial.__{opn}__", "EvaluationMapper.map_polynomial"]))
+    # symbolic coefficients bound (by the environment, or by substitution) to values that include zero
+    ca, cb, cc = p.Variable("ca"), p.Variable("cb"), p.Variable("cc")
+    for exps in ((0, 1, 3), (1, 2, 3), (0, 2, 5), (2, 3, 4)):
+        q_ = Polynomial(x, tuple(zip(exps, (ca, cb, cc))))
+        for va, vb, vc in itertools.product((0, 2, -1), repeat=3):
+            for t in (2, -3, Fraction(1, 2), 0):
+                want = va * t ** exps[0] + vb * t ** exps[1] + vc * t ** exps[2]
+                got1 = outcome.run(lambda: EvaluationMapper({"x": t, "ca": va, "cb": vb, "cc": vc})(q_))
+                got2 = outcome.run(lambda: EvaluationMapper({"x": t})(substitute(q_, {"ca": va, "cb": vb, "cc": vc})))
+                b.case(("symbolic-coefficients", exps, va, vb, vc, repr(t)), nontrivial=0 in (va, vb, vc))
+                for how, got in (("environment", got1), ("substitution", got2)):
+                    if not (got[0] == "val" and got[1] == want):
+                        b.fail(Failure("polynomials", f"what=symbolic-coefficients-bound-by-{how} exponents={exps} coefficients={(va, vb, vc)} at={t}",
+                                       dict(kind="poly", op=f"symbolic-{how}", exps=repr(exps), cs=repr((va, vb, vc)), at=repr(t)), expected=repr(want), actual=outcome.describe(got)[:200],
+                                       functions=["EvaluationMapper.map_polynomial", "IdentityMapper.map_polynomial"]))
     # degree: the largest exponent, -1 for the zero polynomial only
     for a in polys:
         r = outcome.run(lambda: a.degree)
